@@ -213,4 +213,20 @@ Section Law.
         destruct Hc as [Hc|Hc]; [lia | apply IH in Hc; lia]. }
       destruct Hin as [Hin|Hin]; apply G in Hin; lia.
   Qed.
+
+  Theorem bstadapted1d_full :
+    (forall u, ba_sample axis o middle mass lam h minf u
+               = match locate_r 0 ba_segs u with Some lab => lab | None => (n - 1 - o)%Z end)
+    /\ (forall k, (0 <= k < n)%Z -> k <> o -> len_of (k - o) ba_segs == mass (cell_a k) (cell_b k) / lam)
+    /\ len_of 0 ba_segs == 0
+    /\ seg_nonneg ba_segs
+    /\ (forall lab, In lab (map snd ba_segs) -> (- o <= lab <= n - 1 - o)%Z /\ lab <> 0%Z)
+    /\ (forall u k, 0 < u -> (0 <= k < n)%Z -> k <> o -> mass (cell_a k) (cell_b k) == 0 ->
+          locate_r 0 ba_segs u <> Some (k - o)%Z).
+  Proof.
+    destruct bstadapted1d_law as (L1 & L2 & L3 & L4).
+    split; [exact bstadapted1d_sample|]. split; [exact L1|]. split; [exact L2|]. split; [exact L3|]. split; [exact L4|].
+    intros u k Hu Hk Ho Hz. apply locate_r_never_zero; [assumption | assumption |].
+    rewrite (L1 k Hk Ho), Hz. field. lra.
+  Qed.
 End Law.
